@@ -877,7 +877,11 @@ namespace BitSerializer::Convert::Utf
 	/// <summary>
 	/// Allows to read streams in various UTF encodings with automatic detection.
 	/// </summary>
+#if defined(BITSERIALIZER_VERIF) && defined(BITSERIALIZER_VERIF_ENCODED_CHUNK_SIZE)
+	template <typename TTargetCharType, size_t ChunkSize = BITSERIALIZER_VERIF_ENCODED_CHUNK_SIZE>
+#else
 	template <typename TTargetCharType, size_t ChunkSize = 256>
+#endif
 	class CEncodedStreamReader
 	{
 	public:
